@@ -92,6 +92,11 @@ func RuleW1(keep fnFilter, floor int) Rule {
 					// an unexported function the frozen table has never seen (an extracted helper) has no contract of
 					// its own: what it writes is charged to its callers through their summaries, and judged there
 					c.OK("W1", key, fn.Pos(), "unexported function not in the frozen policy table: its writes are judged at its (listed) callers", st.describe(s.Causes["param:"+p.Name()]))
+				case allowed && i == 0 && fn.Signature.Recv() != nil && strings.HasPrefix(reason, "deserialiser") && s.WD[i] && preheldWrite(st, fn) != nil:
+					// a deserialiser replaces the fields of its receiver; the memory the receiver's slices and pointers
+					// denoted before the call is shared with every copy made of the receiver earlier
+					at := preheldWrite(st, fn)
+					c.Bad("W1", key, at.Pos(), fmt.Sprintf("%s writes memory its receiver already pointed to when it was called (%s at %s goes through a slice or pointer loaded from the receiver before the field is replaced): copies of the object made earlier share that memory and are changed by the call", name, instrKind(at), c.P.Pos(at.Pos())))
 				case allowed:
 					c.OK("W1", key, fn.Pos(), "written; allowed by policy: "+reason, st.describe(s.Causes["param:"+p.Name()]))
 				case deepAllowed && !s.WS[i]:
@@ -452,4 +457,185 @@ func RuleTrust(c *Ctx) {
 		}
 	}
 	c.FloorN("TR", 20, n, "gnark-crypto callees audited")
+}
+
+func instrKind(i ssa.Instruction) string {
+	switch x := i.(type) {
+	case *ssa.Store:
+		return "store"
+	case *ssa.Call:
+		if b, ok := x.Call.Value.(*ssa.Builtin); ok {
+			return b.Name()
+		}
+		if f := core.Callee(x.Common()); f != nil {
+			return "call " + core.FnName(f)
+		}
+	}
+	return "write"
+}
+
+// preheldWrite: an instruction of the method (or its closures) that writes through a slice or pointer loaded out of a
+// field of the receiver at a point where no store to that field dominates the load, i.e. through memory the receiver
+// held when the method was entered. Static callees are followed through their summaries (a parameter written
+// shallowly). Returns nil when there is none.
+func preheldWrite(st *wfxState, fn *ssa.Function) ssa.Instruction {
+	if len(fn.Params) == 0 {
+		return nil
+	}
+	recv := ssa.Value(fn.Params[0])
+	// field address rooted at the receiver: the path of field indexes, or nil
+	var fieldPath func(v ssa.Value, d int) []int
+	fieldPath = func(v ssa.Value, d int) []int {
+		if d > 4 {
+			return nil
+		}
+		fa, ok := v.(*ssa.FieldAddr)
+		if !ok {
+			return nil
+		}
+		if fa.X == recv {
+			return []int{fa.Field}
+		}
+		if p := fieldPath(fa.X, d+1); p != nil {
+			return append(p, fa.Field)
+		}
+		return nil
+	}
+	samePath := func(a, b []int) bool {
+		if len(a) != len(b) {
+			return false
+		}
+		for i := range a {
+			if a[i] != b[i] {
+				return false
+			}
+		}
+		return true
+	}
+	type fstore struct {
+		path []int
+		at   *ssa.Store
+	}
+	var fstores []fstore
+	for _, g := range core.Family(fn) {
+		core.AllInstrs(g, func(i ssa.Instruction) {
+			if s, ok := i.(*ssa.Store); ok {
+				if p := fieldPath(s.Addr, 0); p != nil {
+					fstores = append(fstores, fstore{p, s})
+				}
+			}
+		})
+	}
+	before := func(a, b ssa.Instruction) bool { // a executes before b on every path to b
+		if a.Parent() != b.Parent() {
+			return false
+		}
+		if a.Block() == b.Block() {
+			for _, i := range a.Block().Instrs {
+				if i == a {
+					return true
+				}
+				if i == b {
+					return false
+				}
+			}
+		}
+		return a.Block().Dominates(b.Block())
+	}
+	entryLoad := func(ld *ssa.UnOp) bool {
+		p := fieldPath(ld.X, 0)
+		if p == nil {
+			return false
+		}
+		for _, fs := range fstores {
+			if samePath(fs.path, p) && before(fs.at, ld) {
+				return false
+			}
+		}
+		return true
+	}
+	var held func(v ssa.Value, seen map[ssa.Value]bool) bool
+	held = func(v ssa.Value, seen map[ssa.Value]bool) bool {
+		if v == nil || seen[v] || len(seen) > 200 {
+			return false
+		}
+		seen[v] = true
+		switch x := v.(type) {
+		case *ssa.IndexAddr:
+			return held(x.X, seen)
+		case *ssa.FieldAddr:
+			if fieldPath(x, 0) != nil {
+				return false // the receiver's own field
+			}
+			return held(x.X, seen)
+		case *ssa.Slice:
+			return held(x.X, seen)
+		case *ssa.ChangeType:
+			return held(x.X, seen)
+		case *ssa.Convert:
+			return held(x.X, seen)
+		case *ssa.Phi:
+			for _, e := range x.Edges {
+				if held(e, seen) {
+					return true
+				}
+			}
+		case *ssa.UnOp:
+			if x.Op != token.MUL {
+				return false
+			}
+			if entryLoad(x) {
+				return true
+			}
+			if cell, ok := x.X.(*ssa.Alloc); ok {
+				for _, s := range storesInto(cell) {
+					if held(s.Val, seen) {
+						return true
+					}
+				}
+			}
+		}
+		return false
+	}
+	var found ssa.Instruction
+	for _, g := range core.Family(fn) {
+		core.AllInstrs(g, func(i ssa.Instruction) {
+			if found != nil {
+				return
+			}
+			switch x := i.(type) {
+			case *ssa.Store:
+				if _, isCell := x.Addr.(*ssa.Alloc); isCell {
+					return
+				}
+				if held(x.Addr, map[ssa.Value]bool{}) {
+					found = i
+				}
+			case *ssa.Call:
+				if b, ok := x.Call.Value.(*ssa.Builtin); ok {
+					if (b.Name() == "copy" || b.Name() == "append") && len(x.Call.Args) > 0 && held(x.Call.Args[0], map[ssa.Value]bool{}) {
+						found = i
+					}
+					return
+				}
+				callee := core.Callee(x.Common())
+				if callee == nil || len(callee.Blocks) == 0 {
+					return
+				}
+				cs := st.sums[callee]
+				if cs == nil {
+					cs = st.onDemand(callee)
+				}
+				if cs == nil {
+					return
+				}
+				for k, a := range x.Call.Args {
+					if cs.WS[k] && held(a, map[ssa.Value]bool{}) {
+						found = i
+					}
+				}
+			}
+		})
+	}
+	return found
 }
